@@ -349,6 +349,8 @@ def impl_level_rows(tables, m):
         return None
     est, a = m["estimand"], m["alpha"]
     out = []
+    if any(k not in df.columns for k in m["agg_list"]):
+        return {"missing_key_columns": [k for k in m["agg_list"] if k not in df.columns]}
     for r in df.to_dict(orient="records"):
         key = tuple(str(r[k]) for k in m["agg_list"])
         out.append((key, r.get(f"pred_{est}"), r.get(f"results_{est}"), r.get("reporting"),
@@ -363,6 +365,13 @@ def check_levels(run, case, tables, outs, meta, props):
         rows = impl_level_rows(tables, m)
         if rows is None:
             run.diff("aggregate table missing", input=L, level=m["level"], replay_case=case_json(case))
+            continue
+        if isinstance(rows, dict):
+            for pr, sig in (("C01", "C01:agg-groups"), ("C02", "C02:agg-groups"), ("C13", "C13:keys")):
+                if pr in props:
+                    run.violation("an aggregate table lacks key columns of its level: its groups are not the groups the units are "
+                                  "attributable to", input=L, where={"level": m["level"]}, impl=rows, predicate="group_exists_iff",
+                                  signature=sig, replay_case=case_json(case))
             continue
         if o is None:
             continue
@@ -500,10 +509,23 @@ def boot_margin_checks(run, case, tables, props):
             s[2] += C.frac(pm) if pm is not None and not math.isnan(pm) else 0
             s[3] += int(r["reporting"])
         rows = df.to_dict(orient="records")
+        if any(k not in df.columns for k in al):
+            for pr, sig in (("C01", "C01:agg-groups"), ("C02", "C02:agg-groups"), ("C11", "C11:group")):
+                if pr in props:
+                    run.violation("an aggregate table lacks key columns of its level: its groups are not the groups the units are "
+                                  "attributable to", input=L, where={"level": level}, impl=[k for k in al if k not in df.columns],
+                                  predicate="group_exists_iff", signature=sig, replay_case=case_json(case))
+            continue
         keys = [tuple(str(r[k]) for k in al) for r in rows]
         if sorted(sums) != keys:
             run.diff("bootstrap aggregate table keys differ from the groups of the unit table", input=L, level=level,
                      impl=keys[:8], model=sorted(sums)[:8], replay_case=case_json(case))
+            if set(sums) != set(keys):
+                for pr, sig in (("C01", "C01:agg-groups"), ("C02", "C02:agg-groups")):
+                    if pr in props:
+                        run.violation("the groups of a bootstrap aggregate table are not exactly the groups its units are attributable to",
+                                      input=L, where={"level": level}, impl=keys[:8], expected=sorted(sums)[:8],
+                                      predicate="group_exists_iff", signature=sig, replay_case=case_json(case))
             if "C11" in props:
                 run.violation("an unexpected unit's votes are attributed to a group that is not its own (or a group is missing)",
                               input=L, level=level, impl=keys[:8], expected=sorted(sums)[:8], predicate="groups_after_unexpected",
